@@ -688,6 +688,25 @@ fn check_transition(pre: &Obs, action: &Action, outcome: &Outcome, post: &Obs, t
                         outside_user_file = true;
                     }
                     if before.is_some() && after.is_none() {
+                        // special shape: the path is a file in the tree, and the user created a file
+                        // below it (inside the patterns), which turns the path into a directory
+                        let below: Vec<&String> = pre
+                            .disk
+                            .files
+                            .keys()
+                            .filter(|q| q.starts_with(&format!("{p}/")) && in_patterns(&pre.patterns, q))
+                            .collect();
+                        if !below.is_empty() {
+                            return fail(
+                                "snapshot/outside-recorded-as-deleted/new-file-inside-patterns-below-it",
+                                format!(
+                                    "{p} is a file in the tree ({:?}), outside the patterns {:?} and not on disk; the user created \
+                                     {below:?} inside the patterns; the snapshot recorded those and silently dropped {p} from the tree",
+                                    before.map(Entry::show),
+                                    pre.patterns
+                                ),
+                            );
+                        }
                         return fail(
                             "snapshot/outside-recorded-as-deleted",
                             format!("{p} is outside the patterns {:?} and was recorded as deleted (was {:?})", pre.patterns, before.map(Entry::show)),
@@ -804,6 +823,54 @@ fn check_transition(pre: &Obs, action: &Action, outcome: &Outcome, post: &Obs, t
     }
 }
 
+/// Tree paths the update `a` has to remove from disk but cannot reach, judged from the state
+/// before it: a user file sits above them or a directory in their place.
+fn unremovable(pre: &Obs, a: &Action) -> Vec<String> {
+    let target;
+    let goes: Box<dyn Fn(&str) -> bool> = match a {
+        Action::SetSparse(new_patterns) => Box::new(move |p| !in_patterns(new_patterns, p)),
+        Action::Checkout(t) => {
+            target = tree_spec(t);
+            Box::new(move |p| !target.contains_key(p))
+        }
+        _ => return vec![],
+    };
+    pre.tree
+        .keys()
+        .filter(|p| in_patterns(&pre.patterns, p) && goes(p))
+        .filter(|p| below_a_file(&pre.disk, p, &|_| false) || pre.disk.dirs.contains(*p))
+        .cloned()
+        .collect()
+}
+
+/// Recognises the panic message of `assert_eq!(state_paths, tree_paths)` (two sets of quoted
+/// repo paths) and returns (left, right).
+fn parse_state_vs_tree_assertion(msg: &str) -> Option<(BTreeSet<String>, BTreeSet<String>)> {
+    if !msg.contains("assertion `left == right` failed") || !msg.contains("local_working_copy.rs") {
+        return None;
+    }
+    let set_after = |key: &str| -> Option<BTreeSet<String>> {
+        let start = msg.find(key)? + key.len();
+        let rest = &msg[start..];
+        let open = rest.find('{')?;
+        if !rest[..open].trim().is_empty() {
+            return None;
+        }
+        let close = rest.find('}')?;
+        let body = &rest[open + 1..close];
+        let mut set = BTreeSet::new();
+        for item in body.split(',') {
+            let item = item.trim();
+            if item.is_empty() {
+                continue;
+            }
+            set.insert(item.strip_prefix('"')?.strip_suffix('"')?.to_string());
+        }
+        Some(set)
+    };
+    Some((set_after("left:")?, set_after("right:")?))
+}
+
 // ---------------------------------------------------------------------------------------
 // one history
 
@@ -838,7 +905,13 @@ fn run_history(history: &[Action], tally: &Tally) -> Result<String, Failure> {
         return Ok(canonical_key(&o));
     }
     let (prefix, last) = history.split_at(history.len() - 1);
+    // tree paths whose removal an update of this history had to skip because the user put a
+    // file above them (or a directory in their place)
+    let mut skipped_removals: BTreeSet<String> = BTreeSet::new();
     for (i, a) in prefix.iter().enumerate() {
+        if matches!(a, Action::SetSparse(_) | Action::Checkout(_)) {
+            skipped_removals.extend(unremovable(&observe(&ws), a));
+        }
         // every prefix was the last transition of a shorter history and was checked there
         if execute(&mut ws, a, i as i64).is_err() {
             machinery_failure(&format!("a prefix that succeeded before failed on replay: {:?}", prefix));
@@ -846,17 +919,19 @@ fn run_history(history: &[Action], tally: &Tally) -> Result<String, Failure> {
     }
     let pre = observe(&ws);
     let outcome = execute(&mut ws, &last[0], prefix.len() as i64).map_err(|mut f| {
-        if last[0] == Action::Snapshot && f.signature == "C27/snapshot/panic" && f.message.contains("assertion `left == right` failed") {
-            // jj's own debug assertion "recorded file states == tree paths inside the patterns"
-            let stale: Vec<&String> = pre
-                .states
-                .keys()
-                .filter(|p| !in_patterns(&pre.patterns, p) || !pre.tree.contains_key(*p))
-                .collect();
-            if !stale.is_empty() {
+        if last[0] == Action::Snapshot
+            && f.signature == "C27/snapshot/panic"
+            && let Some((state_paths, tree_paths)) = parse_state_vs_tree_assertion(&f.message)
+        {
+            // jj's own debug assertion assert_eq!(state_paths, tree_paths): "recorded file states ==
+            // tree paths inside the patterns". The narrow signature is for exactly one cause: the
+            // surplus states are paths whose removal was skipped earlier in this history.
+            let surplus: BTreeSet<String> = state_paths.difference(&tree_paths).cloned().collect();
+            if !surplus.is_empty() && tree_paths.is_subset(&state_paths) && surplus.is_subset(&skipped_removals) {
                 f.signature = "C27/snapshot/panic/stale-file-state-after-skipped-removal".into();
                 f.message = format!(
-                    "{} — before the snapshot jj had file states for {stale:?}, which are outside the patterns {:?} or not in                      the tree (left behind by an update that skipped their removal)",
+                    "{} — jj still has file states for {surplus:?}; an earlier update of this history skipped the removal of \
+                     exactly these paths (a user file above them) and left a placeholder state behind; patterns now {:?}",
                     f.message, pre.patterns
                 );
             }
